@@ -589,7 +589,7 @@ func main() {
 		},
 		MinEvals:    150000,
 		MinDistinct: 3000,
-		Require: []string{"decode_entry_points", "decode_entry_points_match", "decode_inputs", "json_text_inputs", "validation_variants",
+		Require: []string{"variant_blocks_relayed_as_outline_and_completed", "post_require_blocks_with_v1_transactions_validated_with_empty_supplement", "decode_entry_points", "decode_entry_points_match", "decode_inputs", "json_text_inputs", "validation_variants",
 			"blocks_applied_and_reverted", "alloc_batches_measured", "registry_complete", "decode_valid_accepted", "text_valid_accepted",
 			"variants_rejected", "cpu_calls_measured"},
 		Extra: func(m *harness.Result, cov map[string]any) {
